@@ -2,10 +2,12 @@
 """Prepares a round of independent seeded changes: one scratch worktree of /repo per property under
 <scratch-root>, and one prompt per property that contains only the property's text, the summaries of the
 changes earlier rounds already made for it (so that the new one differs) and the working rules.
-usage: seed_round.py <scratch-root> <round>"""
+usage: seed_round.py <scratch-root> <round> [sites.json]
+sites.json (optional): { "<ID>": "comma separated source files the change should be located in", ... }"""
 import json, os, subprocess, sys, glob
 
 root, rnd = sys.argv[1], int(sys.argv[2])
+sites = json.load(open(sys.argv[3])) if len(sys.argv) > 3 else {}
 here = os.path.dirname(os.path.abspath(__file__))
 props = {json.loads(l)['id']: json.loads(l) for l in open(os.path.join(here, '..', 'properties.jsonl'))}
 os.makedirs(os.path.join(root, 'prompts'), exist_ok=True)
@@ -18,6 +20,9 @@ for pid, p in props.items():
         f = os.path.join(here, '..', 'seeded', f'{pid}-r{r}', 'meta.json')
         if os.path.exists(f):
             prev.append(json.load(open(f))['summary'])
+    site_txt = ""
+    if pid in sites:
+        site_txt = f"To explore parts of the code the earlier changes left alone, locate your change in one of these files if at all possible: {sites[pid]} (paths relative to {wt}). If, after honest effort, no change there can break THIS property, say so in your reply and use the nearest other site.\n\n"
     prev_txt = '\n'.join(f'  {i+1}. "{s}"' for i, s in enumerate(prev))
     txt = f"""You are helping evaluate a verification effort by playing the role of a developer who introduces a subtle regression.
 
@@ -32,7 +37,7 @@ The property you must break:
 Previous developers already tried the following changes, so do something DIFFERENT - a different mechanism, a different site in the code, and if the property has several clauses preferably a different clause:
 {prev_txt}
 
-Task: make ONE small, realistic change to the library source (files under {wt}/src, not the tests) that makes this property false, while
+{site_txt}Task: make ONE small, realistic change to the library source (files under {wt}/src, not the tests) that makes this property false, while
   (a) the crate still compiles (`cargo build --offline`) and
   (b) the existing test suite still passes: run `cargo test --offline --lib` (unit tests) and, inside a private network namespace because the tests bind fixed UDP ports that other jobs on this machine also use, `unshare -rn sh -c 'ip link set lo up; cargo test --offline --no-fail-fast --test disconnect --test timeouts -- --test-threads=1'`. Note: on the UNCHANGED tree `timeouts::server_active_timeout` is flaky (fails more often than not) and `ideal_transfer`, `reliable_transfer`, `timeouts::client_handshake_timeout`, `disconnect::server_disconnect_now` are flaky or failing - ignore those; every other test must still pass with your change.
 The change should look like a plausible refactoring slip, off-by-one, wrong variable, dropped or reordered statement, NOT something ordinary use would expose at once: it should need something specific to manifest - a particular interleaving of calls, a fault (loss / duplication / reordering / delay) at a particular point, a multi-step sequence of operations, an unusual input or configuration value, a sequence-number wrap-around, or two cooperating sites that each look fine alone. Prefer changes deep in the protocol logic over changes at input validation. Do not touch code guarded by `#[cfg(feature = "uflow_verif")]`, but you MAY use that feature in your demonstration (it provides a virtual clock `uflow::verif::time`, a seeded RNG, an in-process UDP socket `uflow::verif::net` and re-exports of internal types such as HalfConnection, Frame and SendRateComp; see src/verif.rs).
